@@ -132,6 +132,7 @@ func GenSpec(t *rapid.T) *Spec {
 		s.RtMaxNodes = uint16(rapid.SampledFrom([]int{0, 0, 1, 1, 2}).Draw(t, "rtMaxNodes"))
 		s.RtMinPoolExtra = uint16(rapid.SampledFrom([]int{0, 0, 1, 2}).Draw(t, "rtMinPoolExtra"))
 		s.RtValidatorSet = rapid.IntRange(0, 3).Draw(t, "rtValidatorSet") == 0
+		s.RtOwnStake = rapid.Bool().Draw(t, "rtOwnStake")
 	}
 	for i := 0; i < s.NEntities; i++ {
 		var roles []int
